@@ -32,6 +32,18 @@ CLAIMS = {
    note=TB + 'Not decided: split/join/replace/trim as sequence functions, search (strstr/strchr are libc), printf-style formatting, float text, '
         'integer value round trip (SAT does not finish on divide/multiply chains; only canonical decimal form and capacity are proved), unsigned/ULong constructors (snprintf).',
    technique='CBMC code contracts (DFCC) on extracted function bodies, ghost-index postconditions'),
+ 'C05': dict(level='proof', design='6 C05',
+   text='Per-value lemmas between the extracted encoder and decoder code: for EVERY byte 1..255, inside a string value and inside a quoted object key, the characters XdlEncoder::new_string writes are legal strict-JSON string text (RFC 8259 char production) '
+        'and the decoder steps turn them back into exactly that byte without leaving the string, rejecting or opening a comment; every JSON two-character escape decodes to its character; '
+        'new_number(int/double/float) reserve enough room for every text printf/myitoa can write and record the written length.',
+   note=TB + 'NOT decided: doubles/floats bit-exactness (a theorem about libc printf/atof), structure placement ([ ] { } , :) for whole trees, XDL identifier keys, file round trip, agreement with an independent parser beyond the string production. snprintf/strtoul are stubs with their ISO C contracts.',
+   technique='CBMC full-domain lemmas over extracted encoder emit code + decoder step'),
+ 'C06': dict(level='proof', design='6 C06',
+   text='One step (loop body) of XdlParser::parse proved for EVERY byte and EVERY parser configuration satisfying a representation invariant (context-stack shape, comment markers, state/container consistency, unicode counter): '
+        'no stack underflow, indices in range, invariant preserved, at most one push-back per character, container contexts paired with value-list pushes/pops; the constructor establishes the invariant. '
+        'By induction over the input bytes: total and memory-safe on any byte string, and chunk-independent (the step has no state outside the parser object).',
+   note=TB + 'Containers are ghost models: context stack = 3-entry window + depth with C01 top/pop preconditions, token buffer = 15 characters + length, Var tree = counters. NOT decided: agreement with an independent JSON parser on all RFC 8259 documents, the value tree built by put()/Var, atof, prefix rejection as a separate theorem, Json::decode wrapper (parser reuse across calls).',
+   technique='CBMC code contract (inductive invariant) on the extracted loop body'),
  'C08': dict(level='proof', design='6 C08',
    text='For EVERY Unicode scalar value at once (one symbolic code point): utf32toUtf8 emits exactly the bytes of Unicode table 3-6, utf8toUtf32 returns it, '
         'utf8toUtf16 gives table 3-5, utf16toUtf8 returns the same bytes, code-point iteration yields the value and its length, count() of two values is 2. '
